@@ -106,7 +106,8 @@ class HKey:
         return f'HKey({self.v})'
 
 
-_WORDS = ['zeta', 'alpha', 'mu', 'b', 'a', 'Z', 'aa', 'key', 'x1', 'x10', 'x2', 'omega', '', ' sp', 'Ünï', 'k_9']
+_WORDS = ['zeta', 'alpha', 'mu', 'b', 'a', 'Z', 'aa', 'key', 'x1', 'x10', 'x2', 'omega', '', ' sp', 'Ünï', 'k_9',
+          "it's", 'say "hi"', 'back\\slash', 'new\nline', '{brace}', '%s', 'a.b', 'x[0]', "'", 'None']
 
 # key styles: name -> (generator of n distinct keys, totally_ordered?, literal_repr?)
 class IntSub(int):
